@@ -144,6 +144,19 @@ CLAIMED = {
         'violations: BaseTriage.step tests `self.sim.t in timepoints` and never delivers; campaign_screening/campaign_triage have no coverage_dist and raise on delivery. Fixed: routine window overrun.',
    technique='Coq invariant/induction proofs over generated delivery formulas + in-Coq replay of recorded intervention steps and histories',
    design='5 C20'),
+ 'C19': dict(
+   text='Coq theorems about the pregnancy model whose flag scripts, schedules and maternal-edge tests are REGENERATED from demographics.py / networks.py: for every flag valuation and every truth '
+        'assignment of the time tests, update_states / set_prognoses / finish_step keep each woman in exactly one of fecund / pregnant / post-partum and move her only along '
+        'fecund->pregnant->post-partum->fecund (or pregnancy loss); the delivery test first succeeds at conception + gestation rounded UP to a whole step (for all rational gestations); a prenatal '
+        'edge is kept and active exactly while the delivery test fails, and ends with a dead endpoint; a postnatal edge created at the delivery step ends in [0, 1) steps after the post-partum period; '
+        'the child of a pregnancy conceived at minus the gestation is aged in [0, dt_year) at the delivery step, also through burn-in; the links written at conception pair each embryo with exactly the '
+        'woman who conceived it and touch nobody else. Every real call of the three methods, every stored schedule, delivery step and embryo age is replayed in Coq; a per-step probe evaluates '
+        'ageing, parentage, eligibility at conception, exclusivity, delivery timing and both maternal networks on a configuration grid.',
+   note='Trusted: Coq kernel, translator (scripts + expressions + shape pins on make_embryos / make_pregnancies / burn-in loop), harness (class-level wrappers, analyzer probe). Ageing by dt_year per '
+        'step is proved in C16 and probed here. Fertile-age / female / fecund eligibility of the conception draw is pinned (zeroing lines) and probed, not derived. float32 storage of ages and timers: '
+        'tolerance 1e-4. Closed under the global context.',
+   technique='Coq exhaustive-check-with-soundness-proof over generated flag scripts + Q-arithmetic theorems over generated schedule expressions + in-Coq replay of recorded calls',
+   design='5 C19'),
 }
 
 checks = []
